@@ -341,5 +341,254 @@ theorem pushCandidate_spec {p : Params} {s : UState} {k : Nat} (hash : UInt64) (
       · exact Nat.lt_succ_of_lt (Nat.lt_succ_of_lt (hs.freshWo n hn))
       · simp at hn; subst hn; show s.nextId + 1 < s.nextId + 1 + 1; omega
 
+/-! ### admission: victim aggregation and removal -/
+
+def wOf (s : UState) (key : Nat) : Nat :=
+  match AL.get? s.map key with
+  | some e => e.weight
+  | none => 0
+
+def fOf (s : UState) (n : AoNode) : Nat := s.sk.frequency n.hash
+
+/-- What the victim-aggregation loop returns: a prefix of the nodes it was given. -/
+theorem admitLoop_spec {p : Params} {s : UState} {cw cf : Nat}
+    (hw : ∀ k e, AL.get? s.map k = some e → e.weight = p.weigh k e.val) :
+    ∀ (nodes : List AoNode) (a : Admission),
+      (∀ n ∈ nodes, ∃ e, AL.get? s.map n.key = some e) → a.fault = false →
+      (admitLoop p s cw cf nodes a).fault = false ∧
+      ∃ taken rest, nodes = taken ++ rest ∧
+        (admitLoop p s cw cf nodes a).victims = a.victims ++ taken ∧
+        (admitLoop p s cw cf nodes a).vw = a.vw + (taken.map (fun n => wOf s n.key)).sum ∧
+        (admitLoop p s cw cf nodes a).vf = a.vf + (taken.map (fOf s)).sum := by
+  intro nodes
+  induction nodes with
+  | nil =>
+    intro a _ hf
+    exact ⟨by simpa [admitLoop] using hf, [], [], rfl, by simp [admitLoop], by simp [admitLoop],
+      by simp [admitLoop]⟩
+  | cons n rest ih =>
+    intro a hall hf
+    unfold admitLoop
+    by_cases hc : a.vw < cw ∧ ¬ cf < a.vf
+    · rw [if_pos hc]
+      obtain ⟨e, he⟩ := hall n List.mem_cons_self
+      simp only [he]
+      have := ih { a with vw := a.vw + p.weigh n.key e.val, vf := a.vf + s.sk.frequency n.hash,
+                          victims := a.victims ++ [n] }
+        (fun m hm => hall m (List.mem_cons_of_mem _ hm)) hf
+      obtain ⟨h1, taken, rest', h2, h3, h4, h5⟩ := this
+      refine ⟨h1, n :: taken, rest', by simp [h2], by simp [h3], ?_, ?_⟩
+      · rw [h4]; simp only [List.map_cons, List.sum_cons, wOf, he, hw n.key e he]; omega
+      · rw [h5]; simp only [List.map_cons, List.sum_cons, fOf]; omega
+    · rw [if_neg hc]
+      exact ⟨hf, [], n :: rest, rfl, by simp, by simp, by simp⟩
+
+theorem two_keys_length {m : List (Nat × UEntry)} {a b : Nat} {ea eb : UEntry}
+    (ha : AL.get? m a = some ea) (hb : AL.get? m b = some eb) (hab : a ≠ b) : 2 ≤ m.length := by
+  have h1 := AL.length_erase_of_get? ha
+  have h2 : AL.get? (AL.erase m a) b = some eb := by rw [AL.get?_erase_ne hab]; exact hb
+  have h3 := AL.length_erase_of_get? h2
+  omega
+
+/-- Removal of the selected victims while the candidate `k` is pending. -/
+theorem removeVictims_spec {p : Params} {k : Nat} :
+    ∀ (victims : List AoNode) (s : UState), StructP p (some k) s →
+      (∀ v ∈ victims, v ∈ s.prob) → (victims.map (·.id)).Nodup → s.ec + 1 = s.map.length →
+      StructP p (some k) (removeVictims victims s) ∧
+      (removeVictims victims s).ec + 1 = (removeVictims victims s).map.length ∧
+      (removeVictims victims s).ec + victims.length = s.ec ∧
+      totalW (removeVictims victims s).map + (victims.map (fun n => wOf s n.key)).sum = totalW s.map ∧
+      (removeVictims victims s).ws = s.ws ∧ SameAux s (removeVictims victims s) ∧
+      Shrinks s (removeVictims victims s) ∧
+      AL.get? (removeVictims victims s).map k = AL.get? s.map k := by
+  intro victims
+  induction victims with
+  | nil =>
+    intro s hs _ _ hc
+    exact ⟨hs, hc, rfl, by simp [removeVictims], rfl, SameAux.refl s, Shrinks.refl s, rfl⟩
+  | cons v rest ih =>
+    intro s hs hin hnd hc
+    have hv := hin v List.mem_cons_self
+    obtain ⟨e, he, heao⟩ := hs.aoBack v hv
+    have hvk : v.key ≠ k := pending_no_node_ao hs hv
+    have hpend : (some k : Option Nat) ≠ some v.key := fun h => hvk (Option.some.inj h).symm
+    obtain ⟨hs', hto, id, n, hao, hfind, _, hprob⟩ := takeOut_spec hs he hpend
+    obtain ⟨ep, hep, _⟩ := hs.pendIn k rfl
+    have hlen := two_keys_length he hep hvk
+    have hec : ¬ (takeOut s v.key e).ec < 1 := by rw [hto.env.ec]; omega
+    have hsub : subEc (takeOut s v.key e) 1 =
+        { takeOut s v.key e with ec := (takeOut s v.key e).ec - 1 } := by
+      simp [subEc, hec]
+    have hid : id = v.id := by rw [heao] at hao; exact (Option.some.inj hao).symm
+    -- the state handed to the recursive call, described field by field
+    obtain ⟨s2, hs2def⟩ : ∃ s2, s2 = subEc (takeOut s v.key e) 1 := ⟨_, rfl⟩
+    have hs2 : StructP p (some k) s2 := by
+      rw [hs2def, hsub]; exact structP_congr hs' rfl rfl rfl rfl rfl
+    have hmap2 : s2.map = AL.erase s.map v.key := by rw [hs2def, hsub]; exact hto.map
+    have hprob2 : s2.prob = eraseAo s.prob v.id := by rw [hs2def, hsub, ← hid]; exact hprob
+    have hec2 : s2.ec = s.ec - 1 := by rw [hs2def, hsub]; simp only; rw [hto.env.ec]
+    have hws2 : s2.ws = s.ws := by rw [hs2def, hsub]; exact hto.env.ws
+    have haux2 : SameAux s s2 := by
+      rw [hs2def, hsub]; exact ⟨hto.env.sk, hto.env.skOn, hto.env.now, hto.env.nextId⟩
+    have hshr2 : Shrinks s s2 := by
+      rw [hs2def, hsub]; exact shrinks_congr hto.shrinks rfl rfl rfl
+    simp only [List.map_cons, List.nodup_cons] at hnd
+    have hin2 : ∀ v' ∈ rest, v' ∈ s2.prob := by
+      intro v' hv'
+      rw [hprob2]
+      refine mem_eraseAo_of_ne (hin v' (List.mem_cons_of_mem _ hv')) ?_
+      intro e'; exact hnd.1 (e' ▸ List.mem_map.mpr ⟨v', hv', rfl⟩)
+    have hlen2 := AL.length_erase_of_get? he
+    have hc2 : s2.ec + 1 = s2.map.length := by rw [hec2, hmap2]; omega
+    obtain ⟨r1, r2, r3, r4, r5, r6, r7, r8⟩ := ih s2 hs2 hin2 hnd.2 hc2
+    -- weights of the remaining victims are unchanged by the removal of `v`
+    have hwsame : ∀ v' ∈ rest, wOf s2 v'.key = wOf s v'.key := by
+      intro v' hv'
+      have hv'in := hin v' (List.mem_cons_of_mem _ hv')
+      have hne : v.key ≠ v'.key := by
+        intro ek
+        obtain ⟨e2, he2, hao2⟩ := hs.aoBack v' hv'in
+        rw [← ek, he] at he2; cases he2
+        rw [heao] at hao2
+        exact hnd.1 ((Option.some.inj hao2) ▸ List.mem_map.mpr ⟨v', hv', rfl⟩)
+      simp only [wOf, hmap2, AL.get?_erase_ne hne]
+    have hsum : (rest.map (fun n => wOf s2 n.key)).sum = (rest.map (fun n => wOf s n.key)).sum := by
+      congr 1
+      exact List.map_congr_left (fun v' hv' => hwsame v' hv')
+    have hrv : removeVictims (v :: rest) s = removeVictims rest s2 := by
+      simp only [removeVictims, he, hs2def]
+    rw [hrv]
+    refine ⟨r1, r2, ?_, ?_, ?_, SameAux.trans haux2 r6, Shrinks.trans hshr2 r7, ?_⟩
+    · simp only [List.length_cons]; omega
+    · rw [hsum, hmap2] at r4
+      have := totalW_erase he
+      have hwv : wOf s v.key = e.weight := by simp [wOf, he]
+      simp only [List.map_cons, List.sum_cons, hwv]
+      omega
+    · rw [r5, hws2]
+    · rw [r8, hmap2, AL.get?_erase_ne hvk]
+
+/-! ### handle_insert and insert -/
+
+theorem maybeEnableSketch_inv {P : Sketch → Prop} (L : SketchLaws P) {p : Params}
+    (hsm : SmallSketch p) {s : UState} (hi : Inv P p s) : Inv P p (maybeEnableSketch p s) := by
+  unfold maybeEnableSketch
+  split
+  · unfold enableSketch
+    cases hc : p.cap with
+    | none => exact hi
+    | some maxCap =>
+      simp only
+      refine ⟨invU_of hi.inv (structP_congr hi.inv.struct rfl rfl rfl rfl rfl) rfl rfl rfl, ?_⟩
+      simp only
+      apply L.ensure _ _ hi.sk
+      split
+      · exact hsm.cap maxCap hc
+      · exact hsm.capF _ _ _
+  · exact hi
+
+theorem state_restore {s : UState} {k : Nat} {entry : UEntry} (hk : AL.get? s.map k = none) :
+    ({ ({ s with map := AL.put s.map k entry } : UState) with
+        map := AL.erase (AL.put s.map k entry) k } : UState) = s := by
+  rw [AL.erase_put_of_none entry hk]
+
+theorem handleInsert_inv {P : Sketch → Prop} (L : SketchLaws P) {p : Params}
+    (hsm : SmallSketch p) {s : UState} (hi : Inv P p s) {k v : Nat} (ts : Option Nat)
+    (hk : AL.get? s.map k = none) :
+    Inv P p (handleInsert p { s with map := AL.put s.map k { val := v, weight := p.weigh k v } }
+      k (p.hash k) (p.weigh k v) ts) := by
+  generalize hent : ({ val := v, weight := p.weigh k v } : UEntry) = entry
+  have heao : entry.ao = none := by rw [← hent]
+  have hewo : entry.wo = none := by rw [← hent]
+  have hew : entry.weight = p.weigh k v := by rw [← hent]
+  have hev : entry.val = v := by rw [← hent]
+  have hsp := struct_put_pending (entry := entry) hi.inv.struct hk heao hewo
+  have hlen := AL.length_put_of_none entry hk
+  have htw := totalW_put_none entry hk
+  -- the common tail: nodes for the candidate, counters, sketch
+  have tail : ∀ (s3 : UState) (vwt : Nat), StructP p (some k) s3 → P s3.sk →
+      s3.ec + 1 = s3.map.length → totalW s3.map + vwt = totalW s.map + p.weigh k v →
+      s3.ws = s.ws → AL.get? s3.map k = some entry →
+      (∀ k' e', AL.get? s3.map k' = some e' → e'.weight = p.weigh k' e'.val) →
+      Inv P p (maybeEnableSketch p
+        (let s4 := pushCandidate p s3 k (p.hash k) ts
+         let s5 := { s4 with ec := s4.ec + 1 }
+         let s6 := { s5 with ws := s5.ws - vwt }
+         { s6 with ws := s6.ws + p.weigh k v })) := by
+    intro s3 vwt hs3 hsk3 hc3 hw3 hws3 hk3 hwt3
+    obtain ⟨entry', hk', e', hv', hw', hmap, hst, hec, hws, hsk, _, _, _⟩ :=
+      pushCandidate_spec (p.hash k) ts hs3
+    rw [hk3] at hk'; cases hk'
+    apply maybeEnableSketch_inv L hsm
+    have hlen4 := AL.length_put_of_some e' hk3
+    have htw4 := totalW_put_some e' hk3
+    have hge : p.weigh k v ≤ totalW s3.map := by
+      have := weight_le_totalW hk3; omega
+    refine ⟨⟨structP_congr hst rfl rfl rfl rfl rfl, ⟨?_, ?_, ?_⟩⟩, by simpa [hsk] using hsk3⟩
+    · simp only; rw [hmap, hlen4, hec]; exact hc3
+    · simp only; rw [hmap, hws, hws3, hi.inv.counted.ws]; omega
+    · intro k' e2 h2
+      simp only at h2
+      rw [hmap, AL.get?_put] at h2
+      by_cases hkk : k = k'
+      · subst hkk; simp at h2; subst h2; rw [hw', hv', hew, hev]
+      · simp [hkk] at h2; exact hwt3 k' e2 h2
+  have hwts2 : ∀ k' e', AL.get? (AL.put s.map k entry) k' = some e' →
+      e'.weight = p.weigh k' e'.val := by
+    intro k' e2 h2
+    rw [AL.get?_put] at h2
+    by_cases hkk : k = k'
+    · subst hkk; simp at h2; subst h2; rw [hew, hev]
+    · simp [hkk] at h2; exact hi.inv.counted.weights k' e2 h2
+  unfold handleInsert
+  dsimp only
+  by_cases hcap : hasEnoughCapacity p (p.weigh k v) s.ws = true
+  · rw [if_pos hcap]
+    have := tail { s with map := AL.put s.map k entry } 0 hsp hi.sk
+      (by simp only; rw [hlen, hi.inv.counted.ec]) (by simp only; omega) rfl
+      (by simp [AL.get?_put_self]) hwts2
+    simpa using this
+  · rw [if_neg hcap]
+    by_cases htb : tooBig p (p.weigh k v) = true
+    · -- too big: the candidate leaves the map again
+      rw [if_pos htb, state_restore hk]; exact hi
+    · -- admission
+      rw [if_neg htb]
+      unfold admitOrReject
+      dsimp only
+      have hall : ∀ n ∈ s.prob, ∃ e, AL.get? (AL.put s.map k entry) n.key = some e := by
+        intro n hn
+        obtain ⟨e2, h1, _⟩ := hsp.aoBack n hn
+        exact ⟨e2, h1⟩
+      obtain ⟨hf, taken, rest, hsplit, hvic, hvw, _⟩ :=
+        admitLoop_spec (p := p) (s := { s with map := AL.put s.map k entry })
+          (cw := p.weigh k v) (cf := s.sk.frequency (p.hash k)) hwts2 s.prob {} hall rfl
+      simp only [hf, Bool.false_eq_true, if_false]
+      split
+      · -- admitted
+        have hvic' : (admitLoop p { s with map := AL.put s.map k entry } (p.weigh k v)
+            (s.sk.frequency (p.hash k)) s.prob {}).victims = taken := by simpa using hvic
+        rw [hvic']
+        have hin : ∀ v' ∈ taken, v' ∈ ({ s with map := AL.put s.map k entry } : UState).prob := by
+          intro v' hv'
+          simp only; rw [hsplit]; exact List.mem_append_left _ hv'
+        have hnd : (taken.map (·.id)).Nodup := by
+          have := hi.inv.struct.probIds
+          rw [hsplit, List.map_append] at this
+          exact (List.nodup_append.mp this).1
+        obtain ⟨r1, r2, r3, r4, r5, r6, r7, r8⟩ :=
+          removeVictims_spec taken _ hsp hin hnd (by simp only; rw [hlen, hi.inv.counted.ec])
+        have hvw' : (admitLoop p { s with map := AL.put s.map k entry } (p.weigh k v)
+            (s.sk.frequency (p.hash k)) s.prob {}).vw =
+            (taken.map (fun n => wOf { s with map := AL.put s.map k entry } n.key)).sum := by
+          simpa using hvw
+        rw [hvw']
+        refine tail _ _ r1 (by rw [r6.sk]; exact hi.sk) r2 (by simp only at r4; omega) r5
+          (by rw [r8]; simp [AL.get?_put_self]) ?_
+        intro k' e2 h2
+        exact hwts2 k' e2 (r7.sub k' e2 h2)
+      · -- rejected
+        rw [state_restore hk]; exact hi
+
 end Unsync
 end MiniMoka
